@@ -17,7 +17,8 @@
 EXTENDS Naturals, Sequences, FiniteSets, TLC
 
 CONSTANTS MaxLines,   \* files have 1..MaxLines lines
-          MaxCalls    \* bound on the length of a call sequence
+          MaxCalls,   \* bound on the length of a call sequence
+          INBLOCK     \* TRUE: call sequences may contain the in-block variants
 
 Kinds == {"D", "U"}                       \* dated / undated line
 Files == UNION {[1..n -> Kinds] : n \in 1..MaxLines}
@@ -68,7 +69,10 @@ PrintedLines == IF FirstDated = 0 THEN {} ELSE FirstDated..N
 \* find_line(fo) for fo inside line i: that line.
 \* find_sysline(fo) for fo inside line i: the message that contains line i (the reader walks back to the
 \* head line), or, for undated lines before the first dated line, the first message (0 = Done: no dated
-\* line at all).  A function of (file, fo) only -- no cache history may change it.
+\* line at all).  A function of (file, fo) only -- no cache history OF THE KIND THE PROGRAM PRODUCES may change
+\* it: find_line / find_sysline calls at any offsets, preceded by the block-zero scan (ScanIB below).
+\* (Measured: in-block calls at arbitrary cold offsets -- which the program never makes -- can teach the reader
+\* a message cut off at a block end, see DESIGN.md 16.8; the scan discipline is therefore part of the model.)
 FindLine(i) == i
 FindSysline(i) == IF HeadOf(i) # 0 THEN HeadOf(i) ELSE NextHead(i)
 FindSyslineAllowed(i) == {FindSysline(i)}
@@ -100,6 +104,19 @@ CallSysline(i, p) ==
   /\ cs' = IF h = 0 THEN cs ELSE cs \cup {h}
   /\ path' = Append(path, <<"sysline", i, p, h>>)
 
+\* the in-block variants (find_line_in_block / find_sysline_in_block) answer only from the block the offset lies
+\* in, so what they find depends on the block size.  The program uses them in one way only (SyslogProcessor::
+\* blockzero_analysis_lines / _syslines): as the first calls on a file, from offset 0, each call at the `next`
+\* offset of the previous answer, until Done or k answers.  ScanIB is that scan as one step: it may teach the
+\* reader any prefix 1..j of the lines and any of the messages headed in that prefix -- or nothing -- and it
+\* must not change the answer of any later find_line / find_sysline call.
+ScanIB(op, k) ==
+  /\ INBLOCK /\ path = <<>>
+  /\ \E j \in 0..N :
+       /\ cl' = 1..j
+       /\ cs' \in (IF op = "line" THEN {{}} ELSE SUBSET {h \in 1..j : Dated(h)})
+  /\ path' = <<(<<(IF op = "line" THEN "scanline" ELSE "scansys"), k, "b", 0>>)>>
+
 \* calls at and past the end of file: Done, nothing learned
 CallEof(op, k) ==
   /\ UNCHANGED <<cl, cs>>
@@ -109,6 +126,7 @@ Next ==
   /\ Len(path) < MaxCalls
   /\ UNCHANGED <<file, nl>>
   /\ \/ \E i \in 1..N, p \in Pos : CallLine(i, p) \/ CallSysline(i, p)
+     \/ \E op \in Ops, k \in 1..3 : ScanIB(op, k)
      \/ \E op \in Ops, k \in {1, 2} : CallEof(op, k)
 
 Spec == Init /\ [][Next]_vars
